@@ -22,6 +22,8 @@ demo_cmd=$(python3 -c "import json;print(json.load(open('$src/meta.json'))['demo
 demo_cmd=$(echo "$demo_cmd" | sed "s#\.\./${prop}_out#$root/${prop}_out#g; s#$root/${prop}\b\([^_]\)#$wt\1#g")
 # a leading `cp <placeholder>/… . &&` is redundant: the demo files are copied below
 demo_cmd=$(echo "$demo_cmd" | sed -E 's#^cp <[A-Za-z0-9_]+>[^&]*&& *##')
+# a trailing parenthetical note ("   (end-to-end variant: …)") is not part of the command
+demo_cmd=$(echo "$demo_cmd" | sed -E 's#[[:space:]]{2,}\(.*$##')
 echo "demo_cmd: $demo_cmd"
 # demo files
 copy_demo() { if [ -d "$src/demo" ]; then (cd "$src/demo" && find . -type f) | while read f; do mkdir -p "$wt/$(dirname $f)"; cp "$src/demo/$f" "$wt/$f"; done; fi; }
